@@ -7,30 +7,65 @@
    live documents (LiveDoc.lwf): every parsed well-formed document (leading/trailing comments,
             several blank lines, missing final newline), the empty document, and whatever the
             operations produce from them. *)
-From V.model Require Import Base Deb822Lex Deb822Parse Grammar Lossy Deb822Edit LiveDoc.
-From V.proofs Require Import Deb822EditP LiveDocP LiveParaP.
+From V.model Require Import Base Deb822Lex Deb822Parse Grammar Lossy Deb822Edit LiveDoc LiveTree.
+From V.proofs Require Import Deb822EditP LiveDocP LiveParaP LiveDocEvP LiveParaEvP.
 
-(* Any finite history of add / insert(i) / remove(i) (every index) interleaved with field edits,
-   from any live document: the live object reports the list-model content, the result is again
-   a live document (in particular paragraphs stay separated by a blank line), and the printed
-   text re-reads without error to the same non-empty paragraphs in the same order. *)
-Theorem C05_history : forall ops d, lwf d = true -> ops_ok2 d ops ->
+(* Any finite history of add / insert(i) / remove(i) (every index) interleaved with field edits
+   in C04's domain (op_dom2: the field edits satisfy C04's op_dom - set/insert a canon_kv name
+   and value, rename a valid new name, whatever value the renamed field carries), from any live
+   document: the live object reports the list-model content, the result is again the tree of a
+   live document (live_tree, coq/model/LiveTree.v: up to the empty VALUE tokens that renaming
+   a field without value leaves; in particular paragraphs stay separated by a blank line), and
+   the printed text re-reads without error to the same non-empty paragraphs in the same order. *)
+Theorem C05_history : forall ops d, lwf d = true -> Forall op_dom2 ops ->
+  let t' := fold_left tstep2 ops (ltree_of d) in
+  let d' := fold_left astep2 ops d in
+  live_tree t' d' /\ lwf d' = true /\
+  doc_items t' = fold_left sstep2 ops (doc_items (ltree_of d)) /\
+  exists t'', from_str (text t') = Ok t'' /\ doc_items t'' = nonempty_paras (doc_items t').
+Proof. exact C05_history_every. Qed.
+Check C05_history : forall ops d, lwf d = true -> Forall op_dom2 ops ->
+  let t' := fold_left tstep2 ops (ltree_of d) in
+  let d' := fold_left astep2 ops d in
+  live_tree t' d' /\ lwf d' = true /\
+  doc_items t' = fold_left sstep2 ops (doc_items (ltree_of d)) /\
+  exists t'', from_str (text t') = Ok t'' /\ doc_items t'' = nonempty_paras (doc_items t').
+Print Assumptions C05_history.
+
+Theorem C05_domain : forall o, op_dom2 o <->
+  match o with
+  | DF (OSet _ k v) | DF (OInsert _ k v) => canon_kv k v = true
+  | DF (ORename _ _ new) => valid_name new = true
+  | _ => True
+  end.
+Proof. intros o. destruct o as [[n k v|n k v|n k|n old new]| | |]; reflexivity. Qed.
+Check C05_domain : forall o, op_dom2 o <->
+  match o with
+  | DF (OSet _ k v) | DF (OInsert _ k v) => canon_kv k v = true
+  | DF (ORename _ _ new) => valid_name new = true
+  | _ => True
+  end.
+Print Assumptions C05_domain.
+
+(* When every renamed field carries a value (ops_ok2) the tree is exactly the layout's tree. *)
+Theorem C05_history_exact : forall ops d, lwf d = true -> ops_ok2 d ops ->
   let t' := fold_left tstep2 ops (ltree_of d) in
   t' = ltree_of (fold_left astep2 ops d) /\ lwf (fold_left astep2 ops d) = true /\
   doc_items t' = fold_left sstep2 ops (doc_items (ltree_of d)) /\
   exists t'', from_str (text t') = Ok t'' /\ doc_items t'' = nonempty_paras (doc_items t').
 Proof. exact C05_history_all. Qed.
-Check C05_history : forall ops d, lwf d = true -> ops_ok2 d ops ->
+Check C05_history_exact : forall ops d, lwf d = true -> ops_ok2 d ops ->
   let t' := fold_left tstep2 ops (ltree_of d) in
   t' = ltree_of (fold_left astep2 ops d) /\ lwf (fold_left astep2 ops d) = true /\
   doc_items t' = fold_left sstep2 ops (doc_items (ltree_of d)) /\
   exists t'', from_str (text t') = Ok t'' /\ doc_items t'' = nonempty_paras (doc_items t').
-Print Assumptions C05_history.
+Print Assumptions C05_history_exact.
 
 (* One step, with the abstract layout it produces: what changes in the document is exactly what
    a_add / a_insert_para / a_remove_para say — the new empty paragraph and one blank line (plus
    the terminator of an unterminated last line when appending), resp. the removed paragraph and
-   one blank line after it; every other block (paragraph, comment, blank line) is untouched. *)
+   one blank line after it; every other block (paragraph, comment, blank line) is untouched.
+   (op_ok2: as C05_history_exact; the paragraph operations themselves have no side condition.) *)
 Theorem C05_step : forall d o, lwf d = true -> op_ok2 d o ->
   tstep2 (ltree_of d) o = ltree_of (astep2 d o) /\ lwf (astep2 d o) = true /\
   lcontent (astep2 d o) = sstep2 (lcontent d) o.
@@ -54,8 +89,29 @@ Check C05_start : (deb822_of_paragraphs [] = ltree_of [] /\ lwf [] = true) /\
   forall d : doc, wf_doc d = true -> from_str (render d) = Ok (ltree_of (lift d)) /\ lwf (lift d) = true.
 Print Assumptions C05_start.
 
-(* Non-vacuity: leading comment, missing final newline, indices in and out of range. *)
+(* Non-vacuity: leading comment, missing final newline, indices in and out of range, a field
+   without value ("E:" as the unterminated last line) renamed before and again after paragraphs
+   were added and removed around it. *)
 Example C05_ex :
+  let f1 := mk_field [65]%N [32]%N [49]%N [] true in
+  let f2 := mk_field [66]%N [32]%N [50]%N [] true in
+  let fe := mk_field [69]%N [] [] [] false in
+  let d := lift [BComment [120]%N true; BBlank; BPara f1 []; BBlank; BPara f2 [IField fe]] in
+  let ops := [DRemove 0; DF (ORename 0 [69]%N [70]%N); DAdd; DF (OSet 1 [67]%N [51]%N); DInsert 7; DInsert 0; DRemove 9; DRemove 3;
+              DF (ORename 1 [70]%N [71]%N)] in
+  lwf d = true /\ Forall op_dom2 ops /\
+  doc_items (fold_left tstep2 ops (ltree_of d)) = [[]; [([66], [50]); ([71], [])]; [([67], [51])]]%N /\
+  text (fold_left tstep2 ops (ltree_of d)) =
+    [10; 35; 120; 10; 10; 66; 58; 32; 50; 10; 71; 58; 32; 10; 10; 67; 58; 32; 51; 10; 10]%N /\
+  fold_left tstep2 ops (ltree_of d) <> ltree_of (fold_left astep2 ops d).
+Proof.
+  cbv zeta. split; [vm_compute; reflexivity|]. split; [repeat constructor; vm_compute; reflexivity|].
+  split; [vm_compute; reflexivity|]. split; [vm_compute; reflexivity|].
+  intros E. vm_compute in E. discriminate E.
+Qed.
+
+(* the same for the exact statement *)
+Example C05_ex_exact :
   let f1 := mk_field [65]%N [32]%N [49]%N [] true in
   let f2 := mk_field [66]%N [32]%N [50]%N [] false in
   let d := lift [BComment [120]%N true; BBlank; BPara f1 []; BBlank; BPara f2 []] in
